@@ -361,7 +361,7 @@ func fingerprintDepth(f *ssa.Function, depth int) []string {
 					if name == "builtin:len" || name == "builtin:append" || name == "builtin:cap" || strings.HasPrefix(name, "closure:") {
 						continue
 					}
-					if strings.HasPrefix(name, "sort.") || strings.HasPrefix(name, "slices.Sort") {
+					if strings.HasPrefix(name, "sort.") || strings.HasPrefix(name, "slices.Sort") || name == "slices.Reverse" {
 						// how a sequence is brought into order (sort.Ints + reverse loop, sort.Sort(sort.Reverse(..)))
 						// is an implementation detail: one entry however often and through whichever entry point
 						sortSeen := false
